@@ -74,7 +74,12 @@ class SequenceLeg(object):
             lines.append(">" + r["name"] + (" some description" if case["desc"] else ""))
             for i in range(0, len(r["seq"]), r["width"]):
                 lines.append(r["seq"][i : i + r["width"]])
-        path = ctx.write("ref.fa", "\n".join(lines) + "\n")
+        import os
+
+        # the same path is rewritten for every case of this process: the file named now is what counts
+        path = os.path.join(ctx.tmp, "ref.fa")
+        with open(path, "w") as fh:
+            fh.write("\n".join(lines) + "\n")
         fa = None
         for f in case["features"]:
             r = case["records"][f["rec"]]
@@ -115,7 +120,7 @@ class Bed12Leg(object):
         @st.composite
         def case(draw):
             ne = draw(st.sampled_from([0, 1, 1, 2, 3, 4, 6]))
-            pos = draw(st.integers(1, 500))
+            pos = draw(st.one_of(st.sampled_from([1, 1, 2]), st.integers(1, 500)))
             exons = []
             for i in range(ne):
                 L = draw(st.integers(0, 80))
@@ -137,7 +142,7 @@ class Bed12Leg(object):
             cds = []
             for (a, b) in exons:
                 if draw(st.integers(0, 2)) == 0 and len(cds) < 4:
-                    x = draw(st.integers(a, b))
+                    x = draw(st.one_of(st.just(a), st.integers(a, b)))
                     y = draw(st.integers(x, b))
                     cds.append([x, y])
             utrs = []
